@@ -1,2 +1,105 @@
-(* Properties/C12.v — property theorems only. (stub) *)
+(* Properties/C12.v — Reverse complement is an involution; canonical k-mers are
+   strand-independent.  Only statements; every proof is [exact <lemma>].
+   The model (Model/Seq.v) reads the complement table from gen/Tables.v, which
+   is regenerated from the implementation on every run; the spec objects
+   (compl, rcseq, window, lexmin) are in Spec/SeqSpec.v.
+   Not covered here (harness only): that src and dst's existing content are
+   untouched as memory (aliasing). *)
+From Coq Require Import String.
 From Bio Require Import Base.
+From Bio.gen Require Import Tables.
+From Bio.Model Require Import Seq.
+From Bio.Spec Require Import SeqSpec.
+From Bio.Proofs Require Import SeqProofs.
+
+(* ---- the 256-entry table ---------------------------------------------------- *)
+(* complementByte is the textbook complement on aAcCgGtTnN and panics (None) on
+   every other value, for all b : N (256-entry sweep of the regenerated table;
+   values >= 256 are outside the table on both sides). *)
+Theorem C12_comp_table_exact : forall b, comp b = compl b.
+Proof. exact comp_table_exact. Qed.
+Print Assumptions C12_comp_table_exact.
+
+Theorem C12_comp_accepts_iff : forall b,
+  (exists c, comp b = Some c) <-> In b (bs "aAcCgGtTnN").
+Proof. exact comp_accepts_iff. Qed.
+Print Assumptions C12_comp_accepts_iff.
+
+Theorem C12_comp_involutive_table : forall b c, comp b = Some c -> comp c = Some b.
+Proof. exact comp_involutive. Qed.
+Print Assumptions C12_comp_involutive_table.
+
+Theorem C12_comp_case_preserving : forall b c, comp b = Some c -> is_lower c = is_lower b.
+Proof. exact comp_case_preserving. Qed.
+Print Assumptions C12_comp_case_preserving.
+
+(* ---- ReverseComplement, any length, any dst prefix ----------------------------- *)
+(* dst followed by the reversed, base-wise complemented copy of src *)
+Theorem C12_rc_spec : forall dst src, dna10 src ->
+  rc dst src = Ok (dst ++ rev (map complb src)).
+Proof. exact rc_spec. Qed.
+Print Assumptions C12_rc_spec.
+
+(* applying it twice gives back the original *)
+Theorem C12_rc_involutive : forall s, dna10 s ->
+  exists r, rc [] s = Ok r /\ rc [] r = Ok s.
+Proof. exact rc_involutive. Qed.
+Print Assumptions C12_rc_involutive.
+
+Theorem C12_rc_string_agrees : forall s, rc_string s = rc [] s.
+Proof. exact rc_string_agrees. Qed.
+Print Assumptions C12_rc_string_agrees.
+
+(* any other byte causes a panic, and nothing else does *)
+Theorem C12_rc_panics_iff : forall dst src,
+  rc dst src = Panic <-> Exists (fun b => is_dna10 b = false) src.
+Proof. exact rc_panics_iff. Qed.
+Print Assumptions C12_rc_panics_iff.
+
+(* ---- CanonicalSubsequences ------------------------------------------------------- *)
+(* exactly len(seq)-k+1 items, none if k > len(seq) *)
+Theorem C12_canon_count : forall s k, dna10 s -> (1 <= k)%Z ->
+  exists items, canon s k = Ok items /\
+    Z.of_nat (length items) =
+      (if (Z.of_nat (length s) <? k)%Z then 0 else Z.of_nat (length s) - k + 1)%Z.
+Proof. exact canon_count. Qed.
+Print Assumptions C12_canon_count.
+
+(* the i-th is the lexicographically smaller of seq[i:i+k] and its reverse complement *)
+Theorem C12_canon_nth : forall s k items i, (1 <= k)%Z -> canon s k = Ok items ->
+  (i + Z.to_nat k <= length s)%nat ->
+  nth_error items i =
+    Some (lexmin (window s i (Z.to_nat k)) (rcseq (window s i (Z.to_nat k)))).
+Proof. exact canon_nth_pos. Qed.
+Print Assumptions C12_canon_nth.
+
+(* lexmin really is the smaller one: the item is one of the two and not above either *)
+Theorem C12_canon_item_min : forall s k items i x, (1 <= k)%Z -> canon s k = Ok items ->
+  nth_error items i = Some x ->
+  let w := window s i (Z.to_nat k) in
+  (x = w \/ x = rcseq w) /\ bcompare x w <> Gt /\ bcompare x (rcseq w) <> Gt.
+Proof. exact canon_item_min_pos. Qed.
+Print Assumptions C12_canon_item_min.
+
+(* a sequence and its reverse complement yield the same items in opposite order *)
+Theorem C12_canon_strand_symmetric : forall s k items, dna10 s -> (1 <= k)%Z ->
+  canon s k = Ok items -> canon (rcseq s) k = Ok (rev items).
+Proof. exact canon_strand_symmetric_pos. Qed.
+Print Assumptions C12_canon_strand_symmetric.
+
+Theorem C12_canon_panics_iff : forall s k,
+  canon s k = Panic <-> ((k < 0)%Z \/ Exists (fun b => is_dna10 b = false) s).
+Proof. exact canon_panics_iff. Qed.
+Print Assumptions C12_canon_panics_iff.
+
+(* Non-vacuity: concrete values meeting the hypotheses. *)
+Example C12_example :
+  dna10 (bs "aACgtNn")
+  /\ rc (bs "xy") (bs "aACgtNn") = Ok (bs "xynNacGTt")
+  /\ rc [] (bs "nNacGTt") = Ok (bs "aACgtNn")
+  /\ rc [] (bs "ACXT") = Panic
+  /\ canon (bs "AAGTT") 2 = Ok [bs "AA"; bs "AG"; bs "AC"; bs "AA"]
+  /\ canon (rcseq (bs "AAGTT")) 2 = Ok [bs "AA"; bs "AC"; bs "AG"; bs "AA"]
+  /\ canon (bs "ACG") 4 = Ok []
+  /\ lexmin (bs "GT") (rcseq (bs "GT")) = bs "AC".
+Proof. vm_compute. repeat split; repeat constructor. Qed.
